@@ -8,6 +8,11 @@ props = [json.loads(l) for l in open(V / "properties.jsonl")]
 
 # id -> (category, technique, level text, level note, design ref)
 CHECKS = {
+ "C09": ("model_checking",
+         "TLA+ specifications of the rank-mask composition, the sequential inverse and the block sign algebra (Masks.tla, BlockMasks.tla) model-checked with TLC over the whole configuration grid; every configuration TLC prints is built for real and its Jacobian patterns / masks compared with TLC's reach sets and mask matrices",
+         "The structure is discrete algebra over a finite grid, so TLC decides it exhaustively (dim 1..5 x cond {0,1,2} x width 1..7 x depth 0..3 x params 1..3 in the thorough tier; every block shape <= 3x3, <= 4 blocks, offsets -2..2; block networks to depth 3). Each printed configuration becomes an implementation test whose expected dependency set was computed by TLC; weights are set after construction (all-positive, and random of both signs up to 1e3) so that masks applied only at construction would be exposed.",
+         "The all-positive weight assignment with ReLU on positive inputs makes every permitted path visible in the autodiff Jacobian; exact zeros in a Jacobian are structural. Equality of the stored masks with the spec's masks is implementation-layer (drift note); the permitted/forbidden dependency sets are the property.",
+         "DESIGN.md 4.5, 5 (C09)"),
  "C10": ("model_checking",
          "TLA+ state machine of the interval adaptation, bisection loop and coordinate driver (Bisection.tla) with the root as an adversary, model-checked with TLC; every maximal behaviour replayed through the public inverter on a family of increasing functions; recorded (rank, sign, exact position) traces of randomised real runs validated by TLC against Trace_Bisection.tla",
          "Because the search sees the function only through sign f(p), TLC's adversary construction covers every root (dyadic or not) up to 2^AMax widths away and every (max_iter, tol) of the grid: Bracket, Accurate, iteration bounds and termination are checked in every state. The code is bound to it in both directions: behaviours -> real runs (points compared one by one in exact dyadic arithmetic; accuracy judged at generous max_iter), real randomised runs -> trace validation.",
